@@ -13,6 +13,7 @@ import (
 	"time"
 
 	"github.com/anishathalye/porcupine"
+	"github.com/spf13/afero"
 )
 
 // C11: concurrent callers see a linearizable, race-free filesystem.
@@ -24,6 +25,7 @@ type concP struct {
 	PerCl    int  `json:"per_client"`
 	Reopened bool `json:"reopened"` // run the clients against an instance whose index was rebuilt from the tape (root "")
 	Procs    int  `json:"procs"`
+	Log      bool `json:"log"` // all clients also append records through ONE shared O_APPEND handle
 	Witness  string `json:"witness,omitempty"`
 }
 
@@ -46,6 +48,10 @@ func (o COp) String() string {
 		return fmt.Sprintf("c%d:rename(%s,%s)", o.Cl, o.A, o.B)
 	case "hwrite":
 		return fmt.Sprintf("c%d:write(%d bytes)", o.Cl, len(o.Data))
+	case "logwrite":
+		return fmt.Sprintf("c%d:sharedhandle.write(%q)", o.Cl, o.Data)
+	case "logclose":
+		return "sharedhandle.close"
 	case "hclose":
 		return fmt.Sprintf("c%d:close", o.Cl)
 	case "snapshot":
@@ -77,7 +83,7 @@ func concCases(prop, tier string, seed uint64) []Case {
 	pb, _ := json.Marshal(concP{Cfg: cfgs[0], Clients: 2, PerCl: 2, Procs: 4, Witness: "partial-read-holds-drive"})
 	cases = append(cases, Case{ID: "c11-witness-partial-read-holds-drive", Seed: 3, Kind: "witness:partial-read-holds-drive", P: pb})
 	for i := 0; i < n; i++ {
-		p := concP{Cfg: cfgs[i%len(cfgs)], Clients: 2 + r.Intn(7), PerCl: 3 + r.Intn(4), Reopened: i%3 == 1, Procs: []int{2, 4, 16}[i%3]}
+		p := concP{Cfg: cfgs[i%len(cfgs)], Clients: 2 + r.Intn(7), PerCl: 3 + r.Intn(4), Reopened: i%3 == 1, Procs: []int{2, 4, 16}[i%3], Log: i%2 == 0}
 		if p.Clients*p.PerCl > 30 {
 			p.PerCl = 30 / p.Clients
 		}
@@ -231,6 +237,25 @@ func concStep(st *cState, in COp, out COut) (bool, *cState) {
 		h.Had = true
 		ns.Open[in.Cl] = h
 		mo = ok()
+	case "logwrite":
+		h, open := ns.Open[-1]
+		if !open {
+			return !out.OK, st
+		}
+		h.Buf += in.Data
+		h.Had = true
+		ns.Open[-1] = h
+		mo = ok()
+	case "logclose":
+		h, open := ns.Open[-1]
+		if !open {
+			return !out.OK, st
+		}
+		delete(ns.Open, -1)
+		if n, ok2 := ns.M.N[h.Path]; ok2 && h.Had {
+			n.Data = []byte(h.Buf)
+		}
+		mo = ok()
 	case "hclose":
 		h, open := ns.Open[in.Cl]
 		if !open {
@@ -304,6 +329,10 @@ func genPrograms(r interface{ Intn(int) int }, p concP) [][]COp {
 		nfile := 0
 		var mine []string // private files that are closed
 		for len(ops) < p.PerCl {
+			if p.Log && r.Intn(3) == 0 {
+				ops = append(ops, COp{K: "logwrite", Data: fmt.Sprintf("<c%d-%02d>", c, len(ops)), Cl: c})
+				continue
+			}
 			switch v := r.Intn(20); {
 			case v < 5: // create + write + close of a private file in a stable directory
 				nfile++
@@ -341,8 +370,14 @@ func genPrograms(r interface{ Intn(int) int }, p concP) [][]COp {
 				}
 			case v < 18:
 				ops = append(ops, COp{K: "stat", A: append(append([]string{}, volatileNames...), stableFiles...)[r.Intn(len(volatileNames)+3)], Cl: c})
+			case v < 19 && p.Log:
+				ops = append(ops, COp{K: "logwrite", Data: fmt.Sprintf("<c%d-%02d>", c, len(ops)), Cl: c})
 			default:
-				ops = append(ops, COp{K: "list", A: append([]string{"/"}, stableDirs...)[r.Intn(3)], Cl: c})
+				if p.Log && r.Intn(2) == 0 {
+					ops = append(ops, COp{K: "logwrite", Data: fmt.Sprintf("<c%d-%02d>", c, len(ops)), Cl: c})
+				} else {
+					ops = append(ops, COp{K: "list", A: append([]string{"/"}, stableDirs...)[r.Intn(3)], Cl: c})
+				}
 			}
 		}
 		progs[c] = ops
@@ -352,6 +387,10 @@ func genPrograms(r interface{ Intn(int) int }, p concP) [][]COp {
 
 type clientState struct {
 	h interface {
+		Write([]byte) (int, error)
+		Close() error
+	}
+	log interface {
 		Write([]byte) (int, error)
 		Close() error
 	}
@@ -442,6 +481,21 @@ func execCOp(rig *Rig, cs *clientState, o COp) COut {
 			return COut{Err: "no handle"}
 		}
 		if _, err := cs.h.Write([]byte(o.Data)); err != nil {
+			return fail2(err)
+		}
+	case "logwrite":
+		if cs.log == nil {
+			return COut{Err: "no shared handle"}
+		}
+		n, err := cs.log.Write([]byte(o.Data))
+		if err != nil {
+			return fail2(err)
+		}
+		if n != len(o.Data) {
+			return COut{Err: fmt.Sprintf("short write %d of %d", n, len(o.Data))}
+		}
+	case "logclose":
+		if err := cs.log.Close(); err != nil {
 			return fail2(err)
 		}
 	case "hclose":
@@ -564,6 +618,17 @@ func concRun(prop, tier string, c Case, w *Worker) (res Result) {
 		}
 	}
 	rig.Seams.mu.Unlock()
+	initOpen := map[int]openH{}
+	var logH afero.File
+	if p.Log {
+		logH, err = rig.FS.OpenFile("/s1/log", os.O_WRONLY|os.O_CREATE|os.O_APPEND, 0o644)
+		if err != nil {
+			res.Verdict, res.Msg = "inconclusive", "opening the shared handle: "+err.Error()
+			return
+		}
+		init.N["/s1/log"] = &MNode{Perm: 0o644, Data: []byte{}}
+		initOpen[-1] = openH{Path: "/s1/log"}
+	}
 	var clock atomic.Int64
 	var mu sync.Mutex
 	var hist []porcupine.Operation
@@ -576,6 +641,9 @@ func concRun(prop, tier string, c Case, w *Worker) (res Result) {
 			defer wg.Done()
 			gids[cl] = gid()
 			cs := &clientState{}
+			if logH != nil {
+				cs.log = logH
+			}
 			<-start
 			for _, op := range progs[cl] {
 				jitter(2000)
@@ -612,6 +680,11 @@ func concRun(prop, tier string, c Case, w *Worker) (res Result) {
 		res.violate("c11|"+sig, fmt.Sprintf("[%s clients=%d procs=%d reopened=%v] ", cfg, p.Clients, p.Procs, p.Reopened)+fmt.Sprintf(format, a...))
 		res.Detail = map[string]any{"cfg": cfg, "params": p, "history": describe()}
 	}
+	if logH != nil {
+		call := clock.Add(1)
+		out := execCOp(rig, &clientState{log: logH}, COp{K: "logclose", Cl: p.Clients})
+		hist = append(hist, porcupine.Operation{ClientId: p.Clients, Input: COp{K: "logclose", Cl: p.Clients}, Call: call, Output: out, Return: clock.Add(1)})
+	}
 	if held := rig.LocksSettled(); len(held) > 0 {
 		viol("locks-held", "all clients returned but the instance still holds %v", held)
 		return
@@ -633,7 +706,13 @@ func concRun(prop, tier string, c Case, w *Worker) (res Result) {
 	call := clock.Add(1)
 	hist = append(hist, porcupine.Operation{ClientId: p.Clients, Input: COp{K: "snapshot", Cl: p.Clients}, Call: call, Output: COut{OK: true, Tree: ft}, Return: clock.Add(1)})
 	m := concModel
-	m.Init = func() interface{} { return &cState{M: init.Clone(), Open: map[int]openH{}} }
+	m.Init = func() interface{} {
+		o := map[int]openH{}
+		for k, v := range initOpen {
+			o[k] = v
+		}
+		return &cState{M: init.Clone(), Open: o}
+	}
 	beat()
 	cr, _ := porcupine.CheckOperationsVerbose(m, hist, 60*time.Second)
 	beat()
